@@ -70,14 +70,14 @@ inline i128 trem(i128 a, i128 b) { return a % b; } // sign of dividend
 // returns RS_OK, RS_BLOCKED (division by zero blocks) or RS_CUT
 inline Res eval_binop(int op, i128 y, i128 z, i128 &out) {
   switch (op) {
-  case B_ADD: out = y + z; break;
-  case B_SUB: out = y - z; break;
+  case B_ADD:
+    if (__builtin_add_overflow(y, z, &out)) return RS_CUT;
+    break;
+  case B_SUB:
+    if (__builtin_sub_overflow(y, z, &out)) return RS_CUT;
+    break;
   case B_MUL:
-    if ((y > GUARD / 4 || y < -GUARD / 4) && (z > 4 || z < -4)) return RS_CUT;
-    if ((z > GUARD / 4 || z < -GUARD / 4) && (y > 4 || y < -4)) return RS_CUT;
-    if ((y > ((i128)1 << 60) || y < -((i128)1 << 60)) && (z > ((i128)1 << 38) || z < -((i128)1 << 38))) return RS_CUT;
-    if ((z > ((i128)1 << 60) || z < -((i128)1 << 60)) && (y > ((i128)1 << 38) || y < -((i128)1 << 38))) return RS_CUT;
-    out = y * z;
+    if (__builtin_mul_overflow(y, z, &out)) return RS_CUT; // beyond the interpreter's 128-bit values
     break;
   case B_SDIV:
     if (z == 0) return RS_BLOCKED;
